@@ -52,7 +52,7 @@ def check_text(ctx, text, docs, cls, must_compile):
     import jsonpath
 
     ctx.evaluation()
-    case = {"text": text, "docs": docs, "class": cls}
+    case = {"text": text, "docs": docs, "class": cls} if cls != "surrogates" else {"kind": "surrogates"}
     c = impl.call(jsonpath.compile, text)
     if not c.ok:
         if must_compile:
@@ -110,6 +110,24 @@ def check_text(ctx, text, docs, cls, must_compile):
         ctx.cell("node_classes_serialised", cname)
     if len(ctx.samples) < 3 or ctx.rng.random() < 0.002:
         ctx.sample({"text": text, "str": s, "class": cls})
+
+
+def run_surrogates(ctx):
+    """Surrogate code points written raw in the query text (a query that came through a UTF-16 system, or was built from
+    Python strings): a high and a low one side by side are TWO characters - another string than the astral character an
+    escaped pair denotes. Lone ones, reversed ones, raw next to escaped. A replay file cannot hold them, so the class is
+    replayed as a whole."""
+    HI, LO, AST = "\ud83d", "\ude00", "\U0001f600"
+    docs = [{HI + LO: "two", AST: "one", HI: "hi", LO: "lo", LO + HI: "rev", "a": HI + LO, "b": AST, "x" + HI + LO + "y": 1, "x" + AST + "y": 2},
+            [{"a": HI + LO}, {"a": AST}, {"a": HI}, {"a": LO}, {"a": LO + HI}, {"a": "x" + HI + LO}, {"a": "x" + AST}]]
+    for name in (HI + LO, AST, HI, LO, LO + HI, "\\ud83d" + LO, HI + "\\ude00", "\\ud83d\\ude00", "x" + HI + LO + "y", HI + LO + HI, HI + HI + LO, "\\ud83d" + LO + HI):
+        for t in ("$['%s']", '$["%s"]', "$[?@.a == '%s']", '$..[?@.a != "%s"]', "$[?'%s' == @.a]", "$[?match(@.a, '%s')]", "$['%s', 'b']", "$[?@['%s']]"):
+            check_text(ctx, t % name, docs, "surrogates", must_compile=False)
+            ctx.count("texts_with_raw_surrogate_code_points")
+    if len(HI + LO) == 2 and len(AST) == 1:
+        for t in ("$.%s", "$..%s"):
+            for name in (AST, "x" + AST):
+                check_text(ctx, t % name, docs, "surrogates", must_compile=False)
 
 
 def digest(text, docs):
@@ -327,6 +345,7 @@ def run(spec, ctx):
         for t in texts:
             check_text(ctx, t, docs, "directed", must_compile=False)
         ctx.count("directed_texts", len(texts))
+        run_surrogates(ctx)
         return
     seeds = []
     for i in range(spec["n"]):
@@ -358,5 +377,8 @@ def finalize(m, tier):
 def replay(case, ctx):
     if case.get("kind") == "concurrent-compile":
         run_concurrent(ctx, 30, fixed=(case["texts"], case["env"]))
+        return
+    if case.get("kind") == "surrogates":
+        run_surrogates(ctx)
         return
     check_text(ctx, case["text"], case["docs"], case.get("class", "replay"), must_compile=case.get("must_compile", False))
